@@ -1050,6 +1050,13 @@ func (c *Ctx) durLin(n *PNode) (coef int64, konst int64, ok bool) {
 		case "-":
 			return a1 - a2, k1 - k2, true
 		case "*":
+			// a product with the configured age formed in less than 64 bits wraps for configurable ages
+			if (a1 != 0 || a2 != 0) && n.V != nil {
+				if bits, _, isInt := intBits(n.V.Type()); isInt && bits < 64 {
+					c.narrowAgeMul = fmt.Sprintf("the configured maximum age is multiplied in %d-bit arithmetic (%s) before being widened: the product wraps for configurable ages (e.g. hours×3600000 exceeds int32 from 597 h on), which moves the cut-off into the future and deletes files younger than the maximum age", bits, n.V.Type())
+					return 0, 0, false
+				}
+			}
 			if a1 == 0 {
 				return k1 * a2, k1 * k2, true
 			}
@@ -1082,6 +1089,7 @@ func (c *Ctx) checkAge(r *Report, ret *ssa.Function, rm ssa.CallInstruction, gua
 	key := "C14.age:" + fname(ret)
 	hour := int64(3600e9)
 	var seen []string
+	c.narrowAgeMul = ""
 	for _, g := range guards {
 		p := c.prov(g.Cond, fr).eff()
 		var lhs, rhs timeLin // condition lhs < rhs
@@ -1140,6 +1148,10 @@ func (c *Ctx) checkAge(r *Report, ret *ssa.Function, rm ssa.CallInstruction, gua
 			r.Fail(key, c.instrPos(rm), "age comparison is inverted (removes files younger than the cut-off): %s", p)
 			return
 		}
+	}
+	if c.narrowAgeMul != "" {
+		r.Fail(key, c.instrPos(rm), "%s", c.narrowAgeMul)
+		return
 	}
 	if len(seen) > 0 {
 		r.Undecided(key, c.instrPos(rm), "age test outside the recognised family: %v", seen)
@@ -1280,6 +1292,8 @@ func checkC20(c *Ctx, r *Report) {
 			}
 		}
 	}
+	// C20.async-opt-in: the asynchronous logger is built by the library itself only where the `async` attribute asks for it
+	c.checkAsyncOptIn(r, ro)
 	// C20.console
 	c.checkStdoutInit(r)
 	// an acknowledged line is lost if the rotation step closes a file a concurrent writer may still hold
@@ -1290,6 +1304,83 @@ func checkC20(c *Ctx, r *Report) {
 		roots = append(roots, c.declaredMethod(nt, "Write"), c.declaredMethod(nt, "Append"))
 	}
 	c.wholeProgramObligation(r, "C20.direct:whole-program", roots, false, false, true, "user-space buffered writer reachable below a synchronous appender")
+}
+
+// checkAsyncOptIn: every in-module construction of the asynchronous logger type (outside its own methods) sits on
+// the true edge of a test of a boolean configuration field whose documented attribute name is "async" — a logger
+// configured as synchronous must not be served by the buffering one.
+func (c *Ctx) checkAsyncOptIn(r *Report, ro *Roles) {
+	if ro.WorkerOwner == nil {
+		return
+	}
+	isAsyncAttr := func(v ssa.Value) bool {
+		ld, ok := v.(*ssa.UnOp)
+		if !ok || ld.Op != token.MUL {
+			return false
+		}
+		fa, ok := ld.X.(*ssa.FieldAddr)
+		if !ok {
+			return false
+		}
+		st := fa.X.Type().Underlying().(*types.Pointer).Elem().Underlying().(*types.Struct)
+		tag, ok := lookupTag(st.Tag(fa.Field), "PluginAttribute")
+		if !ok {
+			return false
+		}
+		name := tag
+		if i := strings.Index(tag, ","); i >= 0 {
+			name = tag[:i]
+		}
+		return name == "async"
+	}
+	n := 0
+	for _, f := range c.Funcs {
+		if recvNamed(f) == ro.WorkerOwner || (f.Parent() != nil && recvNamed(f.Parent()) == ro.WorkerOwner) {
+			continue
+		}
+		eachInstr(f, func(in ssa.Instruction) {
+			al, ok := in.(*ssa.Alloc)
+			if !ok {
+				return
+			}
+			p, ok := al.Type().(*types.Pointer)
+			if !ok || p.Elem() != types.Type(ro.WorkerOwner) {
+				return
+			}
+			n++
+			key := "C20.async-opt-in:" + fname(f)
+			// guards of the allocation, then of the closure's creation site, outwards
+			found := false
+			var at ssa.Instruction = in
+			for fn := f; at != nil && !found; {
+				for _, g := range guardsOfInstr(at) {
+					if g.Polarity && isAsyncAttr(g.Cond) {
+						found = true
+					}
+				}
+				par := fn.Parent()
+				if par == nil {
+					break
+				}
+				var mk ssa.Instruction
+				eachInstr(par, func(j ssa.Instruction) {
+					// a function literal without captured variables is used as a plain function value
+					for _, op := range j.Operands(nil) {
+						if *op == ssa.Value(fn) {
+							mk = j
+						}
+					}
+				})
+				at, fn = mk, par
+			}
+			if found {
+				r.OK(key, "the asynchronous logger is constructed only where the `async` attribute is set")
+			} else {
+				r.Fail(key, c.instrPos(in), "an asynchronous (buffering) logger is constructed on a path that is not selected by the `async` attribute: a logger configured as synchronous would acknowledge lines that only sit in a channel buffer")
+			}
+		})
+	}
+	r.Count("async_constructions", n)
 }
 
 func isEventPtr(t types.Type) bool {
